@@ -372,18 +372,15 @@ pub fn run_case_as(c: &Case, kind: &str, ety: &str, mode: &str) -> Result<Obs, S
             }
         }
         "tree" | "treem" => {
-            if ety != "rich" {
-                return Err(format!("error type {ety} not instantiated for kind {kind}"));
-            }
             LOCS.with(|l| l.borrow_mut().clear());
             BASE.with(|b| *b.borrow_mut() = (0, 1));
             if kind == "tree" {
                 let tt = crate::tree::parse_tt(&c.inp)?;
-                run_kind::<&[crate::tree::TT], Rich<crate::tree::TT>>(&c.g, &tt[..], &c.inp, mode)
+                by_ety!(ety, &[crate::tree::TT], crate::tree::TT, &c.g, &tt[..], &c.inp, mode)
             } else {
                 let ts = crate::tree::parse_ts(&c.inp)?;
                 let n = c.inp.len();
-                run_kind::<crate::tree::TsInput, Rich<crate::tree::TS>>(&c.g, crate::tree::ts_input(&ts[..], SSpan::from(3 * n..3 * n)), &c.inp, mode)
+                by_ety!(ety, crate::tree::TsInput, crate::tree::TS, &c.g, crate::tree::ts_input(&ts[..], SSpan::from(3 * n..3 * n)), &c.inp, mode)
             }
         }
         k => Err(format!("unknown input kind {k}")),
